@@ -257,7 +257,10 @@ func c02Build(p string, min, max int, check bool) (*MemoryChannelStore, *c02Mode
 	n := min + zzsym.Choice(p+".proposals", max-min+1)
 	shape := c02Shape(p, 2)
 	for k := 0; k < n; k++ {
-		cnt := 1 + zzsym.Choice(p+".count", 2)
+		cnt := 1
+		if k < 2 {
+			cnt = 1 + zzsym.Choice(p+".count", 2) // a third proposal (thorough) has one record
+		}
 		base := m.leo()
 		prev := m.tail()
 		man := ch.ProposalManifest{
@@ -357,7 +360,6 @@ func c02NewProposal(p string, m *c02Model, base uint64, wellFormed bool) c02Prop
 		recs[i] = c02Record(p+".rec", shape)
 	}
 	garbageDigest := false
-	indexed := false
 	if wellFormed {
 		zzsym.Assume(man.ChannelEpoch != 0)
 		zzsym.Assume(man.LeaderTerm != 0)
@@ -370,11 +372,8 @@ func c02NewProposal(p string, m *c02Model, base uint64, wellFormed bool) c02Prop
 			zzsym.Assume(recs[i].Epoch == man.ChannelEpoch)
 			zzsym.Assume(recs[i].ServerTimestampMS > 0)
 			// records carry either no index or exactly their offset (a branch per record in the
-			// sealer: one shared choice, thorough only)
-			if zzsym.Thorough() && i == 0 && zzsym.Choice(p+".rec.indexed", 2) == 1 {
-				indexed = true
-			}
-			if indexed {
+			// sealer, so tied to the record shape: shape 2 requests are indexed)
+			if shape == 2 {
 				recs[i].Index = man.BaseOffset + uint64(i) + 1
 			}
 		}
@@ -694,7 +693,7 @@ func c02ReplaceStep(wellFormed bool, maxBuild, maxProposals int) {
 // well-formed replacement proposals with arbitrary predecessor/authority/command.
 func Harness_C02_ReplaceStep() {
 	if zzsym.Thorough() {
-		c02ReplaceStep(true, 3, 2)
+		c02ReplaceStep(true, 2, 2)
 		return
 	}
 	c02ReplaceStep(true, 2, 1)
